@@ -273,7 +273,17 @@ def audit_property(pid, theorems):
         res["obligations"] = lemmas + len(theorems)
         return res
     closed = out.count("Closed under the global context")
-    axioms = re.findall(r"^([A-Za-z_][\w.']*)\s*:", out, re.M)
+    # Print Assumptions prints either "Closed under the global context" or "Axioms:" followed by "name : type" lines
+    axioms = []
+    for blk in re.split(r"^Axioms:\s*$", out, flags=re.M)[1:]:
+        for line in blk.split("\n"):
+            m = re.match(r"^([A-Za-z_][\w.']*)[ \t]*(:|$)", line)
+            if m:
+                axioms.append(m.group(1))
+            elif line.strip() == "" or line.startswith(" "):
+                continue
+            else:
+                break
     axioms = [a for a in axioms if a not in [t[0] for t in theorems]]
     res["axioms"] = sorted(set(axioms))
     notallowed = [a for a in res["axioms"] if a not in ALLOWED_AXIOMS]
